@@ -350,7 +350,7 @@ func solveAll(obls []*Obligation, timeout int, seed int, agree bool, par int) []
 				out[i] = r
 				return
 			}
-			q := o.vc.Query(o.Hyp, goal, -1, true)
+			q := o.vc.Query(o.Hyp, goal, o.NAsserts, true)
 			t0 := time.Now()
 			tmo := timeout
 			if o.Kind == "cover" && tmo > 6 {
